@@ -1047,6 +1047,24 @@ Example ex_lookup_garbage :
   = Err (EIo IoUnexpectedEof).
 Proof. vm_compute. reflexivity. Qed.
 
+(* ====================================================================== *)
+(* NOT in the list of known panic sites: commit_consumed                   *)
+(* ====================================================================== *)
+(* Only the LAST offset of a fetched partition is overflow-checked by poll.  A message
+   with offset i64::MAX that is followed by another message passes the poll in a debug
+   build; once the application marks it consumed (consume_message, with the offset the
+   broker sent) the next commit_consumed computes `offset + 1` (consumer/mod.rs:517) and
+   panics in a debug build - before anything is sent. *)
+Example C13_commit_overflow_finding :
+  let msgs := [{| m_offset := i64_max; m_key := []; m_value := [] |}; {| m_offset := 5; m_key := []; m_value := [] |}] in
+  let polled := process_fetch_responses true ex_k 1 [ex_resp (tag "tp") 0 msgs] in
+  is_ok (fst polled) = true
+  /\ exists k', consume_message (snd polled) (tag "tp") 0 i64_max = Ok k'
+                 /\ dirty_entries k' = [(tag "tp", 0, i64_max)]
+                 /\ commit_entries true (dirty_entries k') = Panic overflow_tag
+                 /\ is_ok (commit_entries false (dirty_entries k')) = true.
+Proof. vm_compute. split; [reflexivity|]. eexists. split; [reflexivity|]. repeat split; reflexivity. Qed.
+
 Print Assumptions C13_metadata_update_total.
 Print Assumptions C13_frame_size.
 Print Assumptions C13_frame_size_negative.
